@@ -1422,6 +1422,12 @@ namespace bloch::compiler {
                 }
             } else if (auto mem = dynamic_cast<MemberAccessExpression*>(call->callee.get())) {
                 auto obj = inferTypeInfo(mem->object.get());
+                if (obj.isTypeParam) {
+                    // A receiver typed by a bounded type parameter has the members of its bound
+                    auto bound = getTypeParamBound(obj.className);
+                    if (bound && !bound->className.empty())
+                        obj = *bound;
+                }
                 if (!obj.className.empty()) {
                     auto* method = findMethodInHierarchy(obj, mem->member, &argTypes);
                     if (method) {
